@@ -26,6 +26,9 @@ ASSUMPTIONS = ['real float64 signals (si_sdr asserts float64; the property quant
 TOL_DB = 1e-7      # predicates: absolute tolerance on dB values
 
 
+_NC = [0]
+
+
 def natlit(n):
     return str(int(n)) if n <= 1000 else '(Z.to_nat %d)' % int(n)
 
@@ -224,6 +227,14 @@ def make_in(rng, tier):
         img[..., 0] += 1 + (img[..., 0] == -1)       # no all-zero signal
         noi = rng.integers(-3, 4, size=(D, img.shape[-1])).astype(float); noi[:, 0] = 1 + 2 * (noi[:, 0] > 0)
         T = img.shape[-1]; kind = 'integer'
+    _NC[0] += 1
+    if kind == 'random' and _NC[0] % 6 == 0:
+        # integer PCM samples as read from a wav file
+        T = int(rng.choice([2048, 4096])); K, D = min(K, 2), min(D, 2)
+        dt = [np.int16, np.int32][(_NC[0] // 6) % 2]
+        img = rng.integers(-3000, 3001, size=(K, D, T)).astype(dt)
+        noi = rng.integers(-300, 301, size=(D, T)).astype(dt)
+        kind = 'pcm-' + np.dtype(dt).name
     rp = {'fn': 'input_sxr', 'images': img, 'noise': noi, 'average_sources': bool(rng.random() < 0.5),
           'average_channels': bool(rng.random() < 0.5), 'return_dict': _rd_pick(rng), 'c': _scale(rng), 'c2': _scale(rng)}
     fail, key, coq = eval_in(rp)
@@ -234,6 +245,7 @@ def make_in(rng, tier):
 
 
 def _in_ref(img, noi, avgc, avgs):
+    img, noi = np.asarray(img, dtype=float), np.asarray(noi, dtype=float)      # the reference works on the VALUES
     K, D, T = img.shape
     S = np.array([[np.dot(img[k, d], img[k, d]) / T for d in range(D)] for k in range(K)])
     N = np.array([np.dot(noi[d], noi[d]) / T for d in range(D)])
@@ -333,6 +345,16 @@ def make_out(rng, tier):
             kind = 'unstructured'
         img = rng.normal(size=(Ks, Kt, T)) * gains[..., None] * 10.0 ** rng.uniform(-4, 4)
         noi = rng.normal(size=(Kt, T)) * 10.0 ** rng.uniform(-2, 1) * np.abs(img).mean()
+    _NC[0] += 1
+    if kind == 'random' and _NC[0] % 6 == 0:
+        T = int(rng.choice([2048, 4096])); Ks, Kt = min(Ks, 2), min(Kt, 3)
+        dt = [np.int16, np.int32][(_NC[0] // 6) % 2]
+        gains = np.full((Ks, Kt), 0.05)
+        for k, o in enumerate(rng.permutation(Kt)[:Ks]):
+            gains[k, o] = 1.0
+        img = np.round(rng.integers(-3000, 3001, size=(Ks, Kt, T)) * gains[..., None]).astype(dt)
+        noi = rng.integers(-100, 101, size=(Kt, T)).astype(dt)
+        kind = 'pcm-' + np.dtype(dt).name
     rp = {'fn': 'output_sxr', 'image_contribution': img, 'noise_contribution': noi,
           'average_sources': bool(rng.random() < 0.5), 'return_dict': _rd_pick(rng), 'c': _scale(rng), 'c2': _scale(rng)}
     fail, key, coq = eval_out(rp)
@@ -343,6 +365,7 @@ def make_out(rng, tier):
 
 def _out_ref(img, noi, avgs):
     """brute force over all injective selections; returns (values, margin between best and second best)"""
+    img, noi = np.asarray(img, dtype=float), np.asarray(noi, dtype=float)
     Ks, Kt, T = img.shape
     S = np.array([[np.dot(img[k, j], img[k, j]) / T for j in range(Kt)] for k in range(Ks)]).reshape(Ks, Kt)
     N = np.array([np.dot(noi[j], noi[j]) / T for j in range(Kt)])
@@ -428,10 +451,22 @@ def make_snr(rng, tier):
     shape = [int(v) for v in rng.integers(1, 5, nd - 1)] + [int(rng.integers(8, 40))]
     X = rng.normal(size=shape) * 10.0 ** rng.uniform(-6, 6)
     N = rng.normal(size=shape) * 10.0 ** rng.uniform(-6, 6)
+    _NC[0] += 1
+    pcm = None
+    if _NC[0] % 5 == 0:
+        # real signals as they come from a wav file: integer PCM samples (int16 / int32), long enough to matter
+        shape = shape[:-1] + [int(rng.choice([2048, 4096]))]
+        pcm = [np.int16, np.int32][(_NC[0] // 5) % 2]
+        X = rng.integers(-3000, 3001, size=shape).astype(pcm)
+        N = rng.integers(-300, 301, size=shape).astype(pcm)
+    elif _NC[0] % 5 == 1 and nd >= 2:
+        # target and noise need not have the same number of samples / channels when no axis is given (whole-array powers)
+        N = rng.normal(size=[1] + shape[1:-1] + [int(rng.integers(8, 40))]) * 10.0 ** rng.uniform(-6, 6)
     rp = {'fn': 'snr', 'X': X, 'N': N, 'snr': float(rng.uniform(-30, 30)) if rng.random() < 0.8 else float(rng.integers(-3, 4) * 10),
-          'inplace': bool(rng.random() < 0.5), 'rowwise': bool(nd >= 2 and rng.random() < 0.3)}
+          'inplace': bool(rng.random() < 0.5) and pcm is None,
+          'rowwise': bool(nd >= 2 and rng.random() < 0.3) and N.shape == X.shape}
     fail, key, coq = eval_snr(rp)
-    name = 'set_snr/get_snr shape=%s snr=%.3f inplace=%s rowwise=%s' % (shape, rp['snr'], rp['inplace'], rp['rowwise'])
+    name = 'set_snr/get_snr shape=%s noise shape=%s dtype=%s snr=%.3f inplace=%s rowwise=%s' % (shape, list(N.shape), X.dtype, rp['snr'], rp['inplace'], rp['rowwise'])
     return Case(name, coq=coq, pred_fail=fail, key=key, nontrivial=True, digest_=core.digest(X, N, name),
                 sample={'name': name, 'X': core.small(X, 3)}, replay=rp, kind='snr')
 
@@ -464,13 +499,13 @@ def eval_snr(rp):
     if X.tobytes() != xb:
         return 'set_snr modified the target signal', 'set_snr:mutates-target', None
     coq = None
-    if not rp['rowwise']:
+    if not rp['rowwise'] and X.shape == N0.shape and X.size <= 200:
         n = X.size
         coq = 'allR [check_get_snr %s %s %s %s; check_set_snr %s %s %s %s %s]' % (
             natlit(n), core.flist(X.ravel()), core.flist(N0.ravel()), core.fhex(cur),
             natlit(n), core.flist(X.ravel()), core.flist(N0.ravel()), core.fhex(snr), core.flist(np.asarray(N).ravel()))
     px = (X.astype(float) ** 2).sum(**kw) / (X.shape[-1] if rp['rowwise'] else X.size)
-    pn = (N0.astype(float) ** 2).sum(**kw) / (X.shape[-1] if rp['rowwise'] else X.size)
+    pn = (N0.astype(float) ** 2).sum(**kw) / (N0.shape[-1] if rp['rowwise'] else N0.size)
     if not _same(cur, 10 * np.log10(px / pn)):
         return 'get_snr differs from 10 log10(mean X^2 / mean N^2)', 'get_snr:formula', coq
     if not _same(new, np.full(np.shape(new), snr)):
